@@ -57,6 +57,51 @@ var idxPalette = []IdxDef{
 	{Name: "u2", Cols: []int{2}, Pfx: []int{0}, Unique: true},
 	{Name: "i20", Cols: []int{2, 0}, Pfx: []int{0, 0}},
 	{Name: "u1p0", Cols: []int{1, 0}, Pfx: []int{2, 0}, Unique: true},
+	{Name: "u01", Cols: []int{0, 1}, Pfx: []int{0, 0}, Unique: true},
+}
+
+// multiRowInsert: ONE statement that keeps going after a rejected row (INSERT IGNORE / ON DUPLICATE KEY
+// UPDATE) with NULL-heavy rows and duplicates of unique values.
+func multiRowInsert(r *hx.Rng, n int) string {
+	var rows []string
+	for i := 0; i < n; i++ {
+		row := genIdxRow(r)
+		pk := r.Range(1, 40)
+		if r.Chance(1, 2) {
+			row[2] = Int(r.Range(0, 3)) // likely duplicate under a unique index on c2
+		} else {
+			row[2] = Int(100 + r.Intn(1000))
+		}
+		if r.Chance(1, 2) {
+			row[r.Intn(2)] = Null()
+		}
+		rows = append(rows, fmt.Sprintf("(%d,%s,%s,%s)", pk, row[0].SQL(), row[1].SQL(), row[2].SQL()))
+	}
+	if r.Chance(1, 2) {
+		return "INSERT IGNORE INTO t VALUES " + strings.Join(rows, ",")
+	}
+	return "INSERT INTO t VALUES " + strings.Join(rows, ",") + " ON DUPLICATE KEY UPDATE c2 = c2"
+}
+
+// idxWitnesses: hand-written programs run first on every C25 check.
+func idxWitnesses() []*Program {
+	// two unique indexes, one over two nullable columns; one multi-row INSERT IGNORE of 128 pairs: a row
+	// (c0 NOT NULL, c1 NULL) rejected by the OTHER unique index, followed by an accepted row with c0 NULL
+	var rows, rows2 []string
+	for i := 0; i < 128; i++ {
+		rows = append(rows, fmt.Sprintf("(%d,5,NULL,1)", 2000+i), fmt.Sprintf("(%d,NULL,'x%d',%d)", 3000+i, i%7, 100+i))
+		rows2 = append(rows2, fmt.Sprintf("(%d,6,NULL,1)", 4000+i), fmt.Sprintf("(%d,NULL,NULL,%d)", 5000+i, 500+i))
+	}
+	return []*Program{{Mode: "idx", NSess: 2,
+		Schema: &SchemaCase{Initial: []IdxDef{{Name: "u01", Cols: []int{0, 1}, Pfx: []int{0, 0}, Unique: true}, {Name: "u2", Cols: []int{2}, Pfx: []int{0}, Unique: true}}},
+		Stmts: []XStmt{
+			{SQL: "INSERT INTO t VALUES (1000,9,'seed',1)"},
+			{SQL: "INSERT IGNORE INTO t VALUES " + strings.Join(rows, ",")},
+			{SQL: "INSERT INTO t VALUES " + strings.Join(rows2, ",") + " ON DUPLICATE KEY UPDATE c1 = c1"},
+			{SQL: "UPDATE t SET c1='y' WHERE pk=3001"},
+			{SQL: "DELETE FROM t WHERE pk=3002"},
+			{SQL: "CALL dolt_commit('-Am','w')"},
+		}}}
 }
 
 type SchemaCase struct {
@@ -201,6 +246,8 @@ func genIdxProgram(r *hx.Rng) *Program {
 		case x < 44:
 			// a two-session transaction merge
 			p.Stmts = append(p.Stmts, XStmt{S: 1, SQL: "BEGIN"}, dmlStmt(r, 1, "t", false), dmlStmt(r, 0, "t", false), dmlStmt(r, 1, "t", false), XStmt{S: 1, SQL: "COMMIT"})
+		case x >= 54 && x < 60:
+			p.Stmts = append(p.Stmts, XStmt{S: 0, SQL: multiRowInsert(r, r.Range(10, 60))})
 		case x < 54 && sc.Keyless:
 			c := r.Intn(nCols)
 			switch r.Intn(3) {
